@@ -56,9 +56,9 @@ ASSUMPTIONS = [
     "data-driven variant uses only coordinates strictly inside bins, in gaps, outside or NaN (edge placement is C01/C02)",
 ]
 BOUNDS = {
-    "quick": "proj: all shapes {1,2,3}^d for d=2..4 (2D: 1..4 bins) x 5 content modes (3 for the 4D shapes other than (2,3,1,2),(3,2,2,1)) x 3 name/bin "
+    "quick": "proj: all shapes {1,2,3}^d for d=2..4 (2D: 1..4 bins) x 5 content modes x 3 name/bin "
              "pairings x all specs (4 / 30 / 248 per parent); chains: all 3D shapes x 3 contents x 3 pairings with every order and index/name assignment "
-             "per step, 4D (2,3,1,2) x 2 contents x 2 name sets and (3,2,2,1): every order x index/name/2 mixed forms per 3-axis step, all forms per "
+             "per step, 4D (2,3,1,2) and (3,2,2,1) x 2 contents x 2 name sets: every order x index/name/2 mixed forms per 3-axis step, all forms per "
              "shorter step; T of all 2D parents and of all 2D projections (3 request forms each); accumulate on every axis by index and name; "
              "~60 invalid / optional lists on 59 parents; data: d=2 rows<=3, d=3 and d=4 rows<=2",
     "thorough": "adds shapes with 4 bins per axis (<= 48 cells), both bin families for every name set, all 5 content modes everywhere, chains on all 4D "
@@ -703,7 +703,49 @@ def eval_data(case):
     return out, label, n > 0
 
 
-EVAL = {"proj": eval_proj, "chain": eval_chain, "T": eval_T, "acc": eval_acc, "invalid": eval_invalid, "data": eval_data}
+def eval_narrow(case):
+    """Marginals of narrow-dtype parents: every cell fits the dtype, the sums over dropped axes do not.
+    'contents ... are the sums over all dropped axes' / 'its total equals the parent's total' - exactly, never wrapped."""
+    import itertools as _it
+
+    from physt.types import Histogram2D, HistogramND
+
+    shape = tuple(case["shape"])
+    dt = np.dtype(case["dtype"])
+    value = case["value"]
+    d = len(shape)
+    binnings = [np.arange(n + 1, dtype=float) for n in shape]
+    freq = np.full(shape, value, dtype=dt)
+    klass = Histogram2D if d == 2 else HistogramND
+    kw = {} if d == 2 else {"dimension": d}
+    parent = klass(binnings, freq, dtype=dt, **kw)
+    axes = case["axes"]
+    res = call(lambda: parent.projection(*axes))
+    out = []
+    sig = f"narrow|{dt.name}|k={len(axes)}"
+    if not res.ok:
+        out.append(V("must_succeed", f"{sig}|raises|{type(res.exc).__name__}", case, "the marginal histogram", res.describe()))
+        return out, "raise", True
+    r = res.value
+    dropped = 1
+    for a in range(d):
+        if a not in axes:
+            dropped *= shape[a]
+    want = value * dropped
+    got = [int(x) for x in np.asarray(r.frequencies).ravel().tolist()]
+    if any(g != want for g in got):
+        out.append(V("marginal", f"{sig}|frequencies", case, want, got))
+    gote = [float(x) for x in np.asarray(r.errors2).ravel().tolist()]
+    if any(g != want for g in gote):
+        out.append(V("marginal", f"{sig}|errors2", case, want, gote))
+    ptotal = value * int(np.prod(shape))
+    if r.total != ptotal:
+        out.append(V("total_preserved", f"{sig}|total", case, ptotal, r.total))
+    return out, "ok", True
+
+
+EVAL = {"proj": eval_proj, "chain": eval_chain, "T": eval_T, "acc": eval_acc, "invalid": eval_invalid, "data": eval_data,
+        "narrow": eval_narrow}
 
 
 def evaluate(case):
@@ -835,9 +877,8 @@ def units(tier, seed):
     shapes4 = shapes_for(4, 3) if thorough else DESIGN4
     for shape in shapes4:
         design = shape in DESIGN4
-        main = shape == DESIGN4[0]
-        for content in (("int", "float") if (main or (design and thorough)) else ("int",)):
-            for names, bins in ([("xyzt", "A"), ("num", "B")] if (main or (design and thorough)) else [("scr", "B")]):
+        for content in (("int", "float") if design else ("int",)):
+            for names, bins in ([("xyzt", "A"), ("num", "B")] if design else [("scr", "B")]):
                 ps = {"cls": "ND", "shape": shape, "content": content, "names": names, "bins": bins}
                 for first in (range(5) if design else [-1]):
                     us.append({"kind": "chain4", "parent": ps, "first": first, "full": bool(thorough and design)})
@@ -846,6 +887,7 @@ def units(tier, seed):
     for part in chunks(shapes_for(3, maxb) + shapes_for(4, maxb), 40 if thorough else 6):
         us.append({"kind": "Tvia+acc", "shapes": part})
     us.append({"kind": "invalid"})
+    us.append({"kind": "narrow"})
     # (6) data-driven
     for wmode in (None, "int", "float"):
         us.append({"kind": "data", "cfg": "d2", "wmode": wmode, "L": 3, "part": 0, "nparts": 1})
@@ -856,7 +898,7 @@ def units(tier, seed):
         for part in range(3):
             us.append({"kind": "data", "cfg": "d4", "wmode": wmode, "L": 2, "part": part, "nparts": 3})
     # cheap and structurally different units first, the big 4D sweeps last (what a time cap would cut)
-    order = ["invalid", "T2", "transformed", "proj2", "proj3", "chain", "datad2", "chain4", "datad3", "Tvia+acc", "proj4", "datad4"]
+    order = ["invalid", "narrow", "T2", "transformed", "proj2", "proj3", "chain", "datad2", "chain4", "datad3", "Tvia+acc", "proj4", "datad4"]
 
     def prio(u):
         k = u["kind"]
@@ -901,11 +943,26 @@ def run_unit(unit, ctx):
     kind = unit["kind"]
     thorough = ctx.thorough
     run = Runner(p, ctx, f"{kind} {unit.get('shapes', unit.get('parent', ''))!s:.60}")
+    if kind == "narrow":
+        import itertools as _it
+
+        for dtype, value in (("int16", 20000), ("int32", 1500000000), ("int16", 1), ("int32", 7)):
+            for shape in ((2, 3), (3, 2), (2, 2, 2), (3, 1, 2), (2, 3, 1, 2)):
+                d = len(shape)
+                for k in range(1, d):
+                    for axes in _it.combinations(range(d), k):
+                        case = {"kind": "narrow", "dtype": dtype, "value": value, "shape": list(shape), "axes": list(axes)}
+                        vs, label, nt = evaluate(case)
+                        p.ev(True)
+                        p.outcome(f"narrow:{dtype}:{label}")
+                        p.extend(vs)
+        p.sample(case)
+        return p
     if kind == "proj":
         for shape in unit["shapes"]:
             d = len(shape)
             for cls in unit["cls"]:
-                contents = CONTENTS if (thorough or d <= 3 or shape in DESIGN4) else ["int", "float", "sparse"]
+                contents = CONTENTS
                 for ps in parent_specs(cls, shape, thorough, contents):
                     names = parent_names(ps)
                     cur = list(range(d))
